@@ -1,6 +1,6 @@
 SPECIFICATION Spec
 CONSTANTS
-  MaxOps = 7
+  MaxOps = 6
   ValSet <- KAll
   DataSet <- DAll
   WinSet = {"all", "win"}
@@ -16,6 +16,8 @@ CONSTANTS
   DerivedByIdentity = TRUE
   GuessEachTime = TRUE
   CountLive = TRUE
+  LabelLive = TRUE
+  PayloadLive = TRUE
 VIEW noHist
 INVARIANT HistoryIndependent
 INVARIANT NoStaleCount
